@@ -145,14 +145,6 @@ func flight3Parse(
 				return 0, &alert.Alert{Level: alert.Fatal, Description: alert.InternalError}, err
 			}
 		}
-
-		if !cfg.HasSessionStore {
-			state.SessionID = []byte{}
-		} else {
-			state.SessionID = bytes.Clone(serverHelloMsg.SessionID)
-		}
-
-		state.MasterSecret = []byte{}
 	}
 
 	var serverFlightPull dtlsflight.HandshakeCachePullResult
@@ -177,6 +169,21 @@ func flight3Parse(
 		return 0, nil, nil
 	}
 	state.HandshakeRecvSequence = serverFlightPull.NextSequence
+
+	if hasServerHello {
+		// Full handshake: adopt the server's session id only now that the whole
+		// server flight is here. This function runs again for every datagram until
+		// then, and the resumption test above must keep comparing the ServerHello
+		// with the session id this client offered, never with the id the server
+		// just chose (that would "resume" with an empty master secret).
+		if !cfg.HasSessionStore {
+			state.SessionID = []byte{}
+		} else {
+			state.SessionID = bytes.Clone(serverHelloMsg.SessionID)
+		}
+
+		state.MasterSecret = []byte{}
+	}
 
 	if h, ok := serverFlightPull.Messages[handshake.TypeCertificate].(*handshake.MessageCertificate); ok {
 		state.PeerCertificates = util.CloneByteSlices(h.Certificate)
